@@ -57,7 +57,25 @@ def counted_job(run, i, falsy=-1):
 
 
 def _same(a, b):
-    return type(a) is type(b) and a == b
+    return type(a) is type(b) and repr(a) == repr(b)
+
+
+# arguments that compare and hash equal although they are different values
+_EQARGS = [1, True, 1.0, 0, False, 0.0, -0.0, 2, 2.0]
+
+
+def describe_job(run, x):
+    return f"{run}:{type(x).__name__}:{x!r}"
+
+
+TICKETS = {}
+
+
+def ticket_job(run):
+    # n *identical* jobs (same function, same arguments): every one of them is a job of its own
+    # and its result is what its own execution returned
+    TICKETS[run] = TICKETS.get(run, 0) + 1
+    return ("ticket", run, TICKETS[run])
 
 
 def _mk_closure(run, i, pad):
@@ -120,6 +138,8 @@ def gen_scenario(seed):
     sc["falsy_mod"] = r.choice([0, 0, 0, 1, 2, 3])  # jobs with (i+tape_seed)%m==0 return a falsy value
     if r.random() < 0.3:
         sc["key_kind"] = r.choice([4, 5])
+    if r.random() < 0.2:
+        sc["fn_kind"] = r.choice(["eqargs", "ticket"])
     if sc["container"] == "dict":
         sc["return_as"] = None
     # call history: what the runner was used for earlier in this process.  The module is reloaded
@@ -144,7 +164,7 @@ def simplify(sc):
         yield dict(sc, pbar=False)
     if sc["exec_shuffle"]:
         yield dict(sc, exec_shuffle=False)
-    if sc["fn_kind"] != "counted":
+    if sc["fn_kind"] not in ("counted", "eqargs", "ticket"):
         yield dict(sc, fn_kind="counted")
     if sc.get("as_iterator"):
         yield dict(sc, as_iterator=False)
@@ -194,6 +214,16 @@ def execute(sc, tape, run_id=0):
                 jobs.append(P.delayed(counted_job)(run_id, i, falsy=k))  # kwargs path of a job
             else:
                 jobs.append(P.delayed(counted_job)(run_id, i))
+    elif sc["fn_kind"] == "eqargs":
+        off = sc["tape_seed"] % len(_EQARGS)
+        xs = [_EQARGS[(i + off) % len(_EQARGS)] for i in range(n)]
+        jobs = [P.delayed(describe_job)(run_id, x) for x in xs]
+        tokens = [describe_job(run_id, x) for x in xs]
+    elif sc["fn_kind"] == "ticket":
+        TICKETS.pop(run_id, None)
+        one = P.delayed(ticket_job)(run_id)
+        jobs = [one] * n if sc["tape_seed"] % 2 else [P.delayed(ticket_job)(run_id) for _ in range(n)]
+        tokens = [("ticket", run_id, i + 1) for i in range(n)]  # as a multiset only, see oracle
     else:
         jobs = [P.delayed(_mk_closure(run_id, i, "x" * (i % 5)))() for i in range(n)]
     keys = None
@@ -314,7 +344,20 @@ def execute(sc, tape, run_id=0):
         info["fault_recovered"] = True
 
     # ---- oracle: token dictionary
-    if sc["container"] == "dict":
+    if sc["fn_kind"] == "ticket":
+        vals = list(out.values()) if isinstance(out, dict) else out
+        issued = TICKETS.get(run_id, 0)
+        if not isinstance(vals, list) or len(vals) != n:
+            bad("list_length", f"{n} identical jobs returned {str(out)[:120]}")
+        elif len(set(map(repr, vals))) != n or any(
+                not (isinstance(v, tuple) and len(v) == 3 and v[:2] == ("ticket", run_id)
+                     and 1 <= v[2] <= issued) for v in vals):
+            bad("identical_jobs", f"{n} identical jobs must each hold the result of an execution of "
+                f"their own; got {str(vals)[:160]} ({issued} executions)")
+        if sc["container"] == "dict" and isinstance(out, dict) and \
+                set(map(repr, out.keys())) != set(map(repr, expect_keys)):
+            bad("dict_keys", f"keys {list(out.keys())[:8]} are not the input keys {expect_keys[:8]}")
+    elif sc["container"] == "dict":
         if not isinstance(out, dict):
             bad("dict_type", f"dict jobs returned {type(out).__name__}")
         else:
@@ -384,6 +427,8 @@ def run_seed(seed, ctx):
     st["falsy_result_runs"] = int(bool(sc.get("falsy_mod")) and sc["fn_kind"] == "counted" and n > 0)
     st["colliding_key_runs"] = int(sc["container"] == "dict" and sc["key_kind"] in (4, 5) and n > 1)
     st["closure_jobs"] = int(sc["fn_kind"] == "closure")
+    st["equal_but_distinct_arg_runs"] = int(sc["fn_kind"] == "eqargs" and n > 1)
+    st["identical_job_runs"] = int(sc["fn_kind"] == "ticket" and n > 1)
     st["exact_once_checked"] = int(bool(info.get("exact_once")))
     st["dict_key_order_differs"] = int(bool(info.get("dict_key_order_differs")))
     st["jobs_not_run_exactly_once"] = int(info.get("not_once") or 0)
